@@ -73,10 +73,16 @@ def handle (j : J) : Except String J := do
         | .disc c _ => decide (c ≥ n)
         | .flush ws => ws.any fun w => decide (w.1 ≥ n)
       if bad then throw "connection index out of range"
-    let vs := mrun (← j.nat "pb") n ops
+    let pb ← j.nat "pb"
+    let vs := mrun pb n ops
     pure (J.mk [("views", J.arr (vs.map fun v => J.mk
       [("accepted", J.ofBytes v.st.accepted), ("pending", J.arr (v.st.pending.map J.ofBytes)), ("disc", J.bool v.st.disc),
-       ("sending", J.bool v.st.sending), ("offered_after_disc", J.ofNat v.st.offeredAfterDisc)]))])
+       ("sending", J.bool v.st.sending), ("offered_after_disc", J.ofNat v.st.offeredAfterDisc)])),
+      -- every connection's view after every whole operation (every prefix of the history); last entry = the shared flag
+      ("trace", J.arr ((List.range ops.length).map fun i =>
+          let ws := mrun pb n (ops.take (i + 1))
+          J.arr (ws.map (fun v => J.ofNats [v.st.accepted.length, v.st.pending.flatten.length, if v.st.disc then 1 else 0])
+                 ++ [J.ofNat (if ws.any (fun v => v.st.sending) then 1 else 0)])))])
   else if part = "B" then
     let acts ← (← j.array "acts").mapM parseAct
     let pb ← j.nat "pb"
